@@ -29,6 +29,20 @@ theorem pos?_lt {n : Nat} {i : Int} {p : Nat} (h : pos? n i = some p) : p < n :=
   · next hc => obtain rfl := Option.some.inj h; omega
   · exact absurd h (by simp)
 
+theorem pos?_some {n : Nat} {i : Int} {p : Nat} (h : pos? n i = some p) :
+    (0 ≤ position n i ∧ position n i < (n : Int)) ∧ (position n i).toNat = p := by
+  unfold pos? at h
+  by_cases hc : (0 ≤ position n i ∧ position n i < (n : Int))
+  · rw [if_pos hc] at h; exact ⟨hc, Option.some.inj h⟩
+  · rw [if_neg hc] at h; exact absurd h (by simp)
+
+theorem pos?_none {n : Nat} {i : Int} (h : pos? n i = none) :
+    ¬ (0 ≤ position n i ∧ position n i < (n : Int)) := by
+  unfold pos? at h
+  by_cases hc : (0 ≤ position n i ∧ position n i < (n : Int))
+  · rw [if_pos hc] at h; exact absurd h (by simp)
+  · exact hc
+
 @[simp] theorem rows_mk (r : List Row) (c : List (Name × LB)) (b : Nat) (h : Option (List Name)) (l : Bool) :
     (LB.mk r c b h l).rows = r := rfl
 @[simp] theorem chapters_mk (r : List Row) (c : List (Name × LB)) (b : Nat) (h : Option (List Name)) (l : Bool) :
@@ -43,98 +57,158 @@ theorem pos?_lt {n : Nat} {i : Int} {p : Nat} (h : pos? n i = some p) : p < n :=
 @[simp] theorem LB.eta (lb : LB) :
     LB.mk lb.rows lb.chapters lb.buffindex lb.header lb.logHeader = lb := by cases lb; rfl
 
-/-- `pop` with an in-range index -/
-theorem pop_in (lb : LB) (i : Int) (p : Nat) (h : pos? lb.rows.length i = some p) :
-    pop i lb = (lb.rows[p]?, LB.mk (lb.rows.eraseIdx p) lb.chapters
-      (if p < lb.buffindex then lb.buffindex - 1 else lb.buffindex) lb.header lb.logHeader) := by
-  cases lb with
-  | mk rows chs b hd lh =>
-    have h' : pos? rows.length i = some p := h
-    unfold pos? at h'
-    split at h'
-    · next hc =>
-      obtain rfl := Option.some.inj h'
-      by_cases hpb : (position rows.length i).toNat < b
-      · have e : (0 ≤ position rows.length i ∧ position rows.length i < (b : Int)) := by omega
-        simp [pop, hc, e, hpb, LB.rows, LB.chapters, LB.buffindex, LB.header, LB.logHeader]
-      · have e : ¬ (0 ≤ position rows.length i ∧ position rows.length i < (b : Int)) := by omega
-        simp [pop, hc, e, hpb, LB.rows, LB.chapters, LB.buffindex, LB.header, LB.logHeader]
-        intro h2; omega
-    · exact absurd h' (by simp)
+/-! ### `pop` on logbooks whose chapters are aligned at every depth -/
 
-/-- `pop` with an out-of-range index raises and changes nothing (while `buffindex ≤ len`) -/
-theorem pop_out (lb : LB) (i : Int) (h : pos? lb.rows.length i = none)
-    (hb : lb.buffindex ≤ lb.rows.length) : pop i lb = (none, lb) := by
-  cases lb with
-  | mk rows chs b hd lh =>
-    simp only [LB.rows, LB.buffindex] at h hb
-    unfold pos? at h
-    split at h
-    · exact absurd h (by simp)
-    · next hc =>
-      have hb' : ¬ (0 ≤ position rows.length i ∧ position rows.length i < (b : Int)) := by omega
-      simp [pop, hc, hb']
+mutual
+/-- every chapter, at every depth, has as many rows as its parent, and every stream position is
+within its logbook -/
+def DeepAligned : LB → Prop
+  | .mk rows chs b _ _ => b ≤ rows.length ∧ AllAligned rows.length chs
+def AllAligned (n : Nat) : List (Name × LB) → Prop
+  | [] => True
+  | (_, ch) :: rest => ch.rows.length = n ∧ DeepAligned ch ∧ AllAligned n rest
+end
 
-/-- all chapters are as long as the logbook -/
-def Aligned (lb : LB) : Prop := ∀ p ∈ lb.chapters, p.2.rows.length = lb.rows.length
+mutual
+/-- position `p` removed from the logbook and from every chapter at every depth, each stream
+position following the removal (specification of `pop` / `del`) -/
+def eraseDeep (p : Nat) : LB → LB
+  | .mk rows chs b h lh => .mk (rows.eraseIdx p) (eraseDeepAll p chs) (if p < b then b - 1 else b) h lh
+def eraseDeepAll (p : Nat) : List (Name × LB) → List (Name × LB)
+  | [] => []
+  | (k, ch) :: rest => (k, eraseDeep p ch) :: eraseDeepAll p rest
+end
 
-/-- `chapter.pop(key)` for every chapter, when each has `n` rows and `key` addresses position `p` -/
-theorem popChapters_aligned (key : Int) (n p : Nat) (h : pos? n key = some p)
-    (chs : List (Name × LB)) (hc : ∀ q ∈ chs, q.2.rows.length = n) :
-    popChapters key chs = (chs.map fun q => (q.1, (pop key q.2).2), false) ∧
-    ∀ q ∈ chs, (pop key q.2).2.rows = q.2.rows.eraseIdx p := by
+theorem eraseDeepAll_eq_map (p : Nat) (chs : List (Name × LB)) :
+    eraseDeepAll p chs = chs.map fun q => (q.1, eraseDeep p q.2) := by
   induction chs with
-  | nil => simp [popChapters]
-  | cons q qs ih =>
-    obtain ⟨k, ch⟩ := q
-    have hq : ch.rows.length = n := hc (k, ch) (by simp)
-    have hpop := pop_in ch key p (by rw [hq]; exact h)
-    have ih' := ih (fun q hq => hc q (by simp [hq]))
-    have hp : p < ch.rows.length := by rw [hq]; exact pos?_lt h
-    constructor
-    · simp only [popChapters, hpop, List.getElem?_eq_getElem hp, List.map_cons, ih'.1]
-    · intro q hq
-      rcases List.mem_cons.1 hq with rfl | hq
-      · simp [hpop, LB.rows]
-      · exact ih'.2 q hq
+  | nil => rfl
+  | cons q qs ih => obtain ⟨k, ch⟩ := q; simp [eraseDeepAll, ih]
 
-/-- `del logbook[key]` on an aligned logbook: the addressed row leaves the logbook and every
-chapter, nothing is raised. -/
-theorem delIndex_aligned (lb : LB) (key : Int) (p : Nat) (h : pos? lb.rows.length key = some p)
-    (ha : Aligned lb) :
-    delIndex key lb = (LB.mk (lb.rows.eraseIdx p)
-      (lb.chapters.map fun q => (q.1, (pop key q.2).2))
-      (if p < lb.buffindex then lb.buffindex - 1 else lb.buffindex) lb.header lb.logHeader, false) ∧
-    ∀ q ∈ lb.chapters, (pop key q.2).2.rows = q.2.rows.eraseIdx p := by
+theorem eraseDeep_rows (p : Nat) (lb : LB) : (eraseDeep p lb).rows = lb.rows.eraseIdx p := by
+  cases lb; simp [eraseDeep]
+theorem eraseDeep_chapters (p : Nat) (lb : LB) :
+    (eraseDeep p lb).chapters = lb.chapters.map fun q => (q.1, eraseDeep p q.2) := by
+  cases lb; simp [eraseDeep, eraseDeepAll_eq_map]
+theorem eraseDeep_buffindex (p : Nat) (lb : LB) :
+    (eraseDeep p lb).buffindex = if p < lb.buffindex then lb.buffindex - 1 else lb.buffindex := by
+  cases lb; rfl
+theorem eraseDeep_header (p : Nat) (lb : LB) :
+    (eraseDeep p lb).header = lb.header ∧ (eraseDeep p lb).logHeader = lb.logHeader := by
+  cases lb; simp [eraseDeep]
+
+theorem allAligned_iff (n : Nat) (chs : List (Name × LB)) :
+    AllAligned n chs ↔ ∀ q ∈ chs, q.2.rows.length = n ∧ DeepAligned q.2 := by
+  induction chs with
+  | nil => simp [AllAligned]
+  | cons q qs ih => obtain ⟨k, ch⟩ := q; simp [AllAligned, ih, and_assoc]
+
+theorem deepAligned_iff (lb : LB) :
+    DeepAligned lb ↔ lb.buffindex ≤ lb.rows.length ∧
+      ∀ q ∈ lb.chapters, q.2.rows.length = lb.rows.length ∧ DeepAligned q.2 := by
+  cases lb; simp [DeepAligned, allAligned_iff]
+
+private theorem bcond (n : Nat) (i : Int) (p b : Nat) (h : pos? n i = some p) :
+    (if 0 ≤ position n i ∧ position n i < (b : Int) then b - 1 else b) = if p < b then b - 1 else b := by
+  unfold pos? at h
+  split at h
+  · next hc =>
+    obtain rfl := Option.some.inj h
+    by_cases hpb : (position n i).toNat < b
+    · have e : (0 ≤ position n i ∧ position n i < (b : Int)) := by omega
+      simp [e, hpb]
+    · have e : ¬ (0 ≤ position n i ∧ position n i < (b : Int)) := by omega
+      simp [e, hpb]
+  · exact absurd h (by simp)
+
+private theorem bcond_out (n : Nat) (i : Int) (b : Nat) (h : pos? n i = none) (hb : b ≤ n) :
+    (if 0 ≤ position n i ∧ position n i < (b : Int) then b - 1 else b) = b := by
+  unfold pos? at h
+  split at h
+  · exact absurd h (by simp)
+  · next hc =>
+    have : ¬ (0 ≤ position n i ∧ position n i < (b : Int)) := by omega
+    simp [this]
+
+mutual
+/-- `pop` with an in-range index on a deep-aligned logbook: nothing is raised, the addressed row
+is returned and leaves the logbook and every chapter at every depth. -/
+theorem pop_deep (index : Int) (p : Nat) : ∀ (lb : LB), DeepAligned lb →
+    pos? lb.rows.length index = some p → pop index lb = (lb.rows[p]?, eraseDeep p lb)
+  | .mk rows chs b h lh, hd, hp => by
+    have hd' : b ≤ rows.length ∧ AllAligned rows.length chs := by simpa [DeepAligned] using hd
+    have hp' : pos? rows.length index = some p := hp
+    have hc := popChapters_deep index p rows.length chs hd'.2 hp'
+    obtain ⟨hin, hpe⟩ := pos?_some hp'
+    simp only [pop, hc, bcond rows.length index p b hp']
+    rw [if_pos hin, hpe]
+    simp [eraseDeep]
+theorem popChapters_deep (index : Int) (p n : Nat) : ∀ (chs : List (Name × LB)), AllAligned n chs →
+    pos? n index = some p → popChapters index chs = (eraseDeepAll p chs, false)
+  | [], _, _ => rfl
+  | (k, ch) :: rest, ha, hp => by
+    have ha' : ch.rows.length = n ∧ DeepAligned ch ∧ AllAligned n rest := by simpa [AllAligned] using ha
+    have h1 := pop_deep index p ch ha'.2.1 (by rw [ha'.1]; exact hp)
+    have h2 := popChapters_deep index p n rest ha'.2.2 hp
+    have hpl : p < ch.rows.length := by rw [ha'.1]; exact pos?_lt hp
+    simp only [popChapters, h1, List.getElem?_eq_getElem hpl, h2, eraseDeepAll]
+end
+
+mutual
+/-- `pop` with an out-of-range index on a deep-aligned logbook raises and changes nothing. -/
+theorem pop_out_deep (index : Int) : ∀ (lb : LB), DeepAligned lb →
+    pos? lb.rows.length index = none → pop index lb = (none, lb)
+  | .mk rows chs b h lh, hd, hp => by
+    have hd' : b ≤ rows.length ∧ AllAligned rows.length chs := by simpa [DeepAligned] using hd
+    have hp' : pos? rows.length index = none := hp
+    have hout := pos?_none hp'
+    have hb := bcond_out rows.length index b hp' hd'.1
+    rcases popChapters_out index rows.length chs hd'.2 hp' with hc | hc
+    · simp only [pop, hc, hb]; rw [if_neg hout]
+    · simp only [pop, hc, hb]
+theorem popChapters_out (index : Int) (n : Nat) : ∀ (chs : List (Name × LB)), AllAligned n chs →
+    pos? n index = none → popChapters index chs = (chs, false) ∨ popChapters index chs = (chs, true)
+  | [], _, _ => Or.inl rfl
+  | (k, ch) :: rest, ha, hp => by
+    have ha' : ch.rows.length = n ∧ DeepAligned ch ∧ AllAligned n rest := by simpa [AllAligned] using ha
+    have h1 := pop_out_deep index ch ha'.2.1 (by rw [ha'.1]; exact hp)
+    right
+    simp only [popChapters, h1]
+end
+
+mutual
+theorem eraseDeep_aligned (p : Nat) : ∀ (lb : LB), DeepAligned lb → DeepAligned (eraseDeep p lb)
+  | .mk rows chs b h lh, hd => by
+    have hd' : b ≤ rows.length ∧ AllAligned rows.length chs := by simpa [DeepAligned] using hd
+    have h2 := eraseDeepAll_aligned p rows.length chs hd'.2
+    simp only [eraseDeep, DeepAligned, List.length_eraseIdx]
+    refine ⟨?_, h2⟩
+    split <;> split <;> omega
+theorem eraseDeepAll_aligned (p n : Nat) : ∀ (chs : List (Name × LB)), AllAligned n chs →
+    AllAligned (if p < n then n - 1 else n) (eraseDeepAll p chs)
+  | [], _ => by simp [eraseDeepAll, AllAligned]
+  | (k, ch) :: rest, ha => by
+    have ha' : ch.rows.length = n ∧ DeepAligned ch ∧ AllAligned n rest := by simpa [AllAligned] using ha
+    have h1 := eraseDeep_aligned p ch ha'.2.1
+    have h2 := eraseDeepAll_aligned p n rest ha'.2.2
+    simp only [eraseDeepAll, AllAligned]
+    exact ⟨by rw [eraseDeep_rows, List.length_eraseIdx, ha'.1], h1, h2⟩
+end
+
+/-- `del logbook[key]` = `pop(key)` with the exception as a flag -/
+theorem delIndex_deep (lb : LB) (key : Int) (p : Nat) (hd : DeepAligned lb)
+    (h : pos? lb.rows.length key = some p) : delIndex key lb = (eraseDeep p lb, false) := by
   have hp : p < lb.rows.length := pos?_lt h
-  have hc := popChapters_aligned key lb.rows.length p h lb.chapters ha
-  refine ⟨?_, hc.2⟩
-  simp only [delIndex, pop_in lb key p h, List.getElem?_eq_getElem hp, hc.1]
+  simp only [delIndex, pop_deep key p lb hd h, List.getElem?_eq_getElem hp]
 
-/-- out of range: `IndexError`, nothing changes -/
-theorem delIndex_out (lb : LB) (key : Int) (h : pos? lb.rows.length key = none)
-    (hb : lb.buffindex ≤ lb.rows.length) : delIndex key lb = (lb, true) := by
-  simp [delIndex, pop_out lb key h hb]
+theorem delIndex_out (lb : LB) (key : Int) (hd : DeepAligned lb)
+    (h : pos? lb.rows.length key = none) : delIndex key lb = (lb, true) := by
+  simp [delIndex, pop_out_deep key lb hd h]
 
-/-- whatever the chapters do, the rows and `buffindex` of the logbook after `del logbook[key]`
-are those after `pop(key)` -/
-theorem delIndex_rows (lb : LB) (key : Int) :
-    (delIndex key lb).1.rows = (pop key lb).2.rows ∧
-    (delIndex key lb).1.buffindex = (pop key lb).2.buffindex ∧
-    (delIndex key lb).1.logHeader = (pop key lb).2.logHeader := by
+theorem delIndex_eq_pop (lb : LB) (key : Int) : (delIndex key lb).1 = (pop key lb).2 := by
   unfold delIndex
-  rcases hpop : pop key lb with ⟨r, lb'⟩
-  cases r with
-  | none => simp
-  | some row => cases lb'; simp [LB.rows, LB.buffindex, LB.logHeader]
-
-theorem pop_logHeader (lb : LB) (key : Int) : (pop key lb).2.logHeader = lb.logHeader := by
-  cases lb with
-  | mk rows chs b hd lh => simp only [pop]; split <;> rfl
-
-theorem pop_chapters (lb : LB) (key : Int) : (pop key lb).2.chapters = lb.chapters := by
-  cases lb with
-  | mk rows chs b hd lh => simp only [pop]; split <;> rfl
+  rcases pop key lb with ⟨r, lb'⟩
+  cases r <;> rfl
 
 /-! ### chapters as a dictionary -/
 
